@@ -84,13 +84,14 @@ func runBTSeq(r *Run, spec seqSpec, clk *Clock) *seqResult {
 		width = 96
 	}
 	check := func(op btOp) bool {
+		now := clk.ServerUs // the value the request's first look at the server clock returns
 		resp := execOp(res.World, op)
-		r.Hist(map[string]interface{}{"op": op.String(), "clock": clk.ServerUs, "resp": resp})
+		r.Hist(map[string]interface{}{"op": op.String(), "clock": now, "resp": resp})
 		before := model
 		if spec.AfterOp != nil {
 			before = model.clone()
 		}
-		if k, msg := model.step(op, resp, clk.ServerUs); k != "" {
+		if k, msg := model.step(op, resp, now); k != "" {
 			wit := ""
 			if spec.Witness != nil {
 				wit = spec.Witness(op, k)
